@@ -579,16 +579,16 @@ pub trait ThreadExt: Send + Sync {
         D: for<'de> serde::Deserializer<'de, Error = E> + Send,
         E: Send + Sync,
     {
+        // The counterpart of `compile_to_bytecode`: instantiates and evaluates the compiled
+        // module and makes its value available as the module `name`.
+        //
+        // (This used to call `Precompiled::load_script` which expects a serialized, already
+        // evaluated global instead of what `compile_to_bytecode` writes and which needs
+        // exclusive access to the database while a snapshot of it is still alive)
         let thread = self.thread();
-        Precompiled(deserializer)
-            .load_script(
-                &mut ModuleCompiler::new(&mut thread.get_database()),
-                thread,
-                name,
-                "",
-                (),
-            )
-            .await
+        let value = Precompiled(deserializer);
+        let loaded = compiler_pipeline::load_precompiled(thread, name, value);
+        loaded.await
     }
 
     /// Parses and typechecks `expr_str` followed by extracting metadata from the created
